@@ -9,12 +9,17 @@
              "cids":[str], "c_net":[bits], "s_net":[bits], "c_alg":[bits], "s_alg":[bits],
              "voltages":[bits], "net_vt":bits|null, "net_rt":bits|null (null = constructor defaults, Gen.Consts), "vt":bits|null, "rt":bits|null,
              "sched":[[str,[bits]]] | null, "S":[[bits]] | null, "x":[bits] | null,
-             "sel":{"names":[str]|null, "ts":[nat]|null} | null}
+             "sel":{"names":[str]|null, "ts":[nat]|null} | null,
+             "restores": n (optional, default 0)}
+  `restores` = number of `from_json(to_json())` round trips the objects have been through before this
+  query: the model network goes through its own codec (`AcnModel/FeasRestore.lean`) that many times and
+  every answer (also the matrix / phasors of the magnitudes) is read from what comes back.
   The phasor coordinates are the implementation's own doubles (`np.exp(1j·deg2rad φ)` for the
   network side, `np.cos/np.sin(deg2rad φ)` for the algorithm side), computed by the harness.
 -/
 import AcnModel.Wire
 import AcnModel.Feas
+import AcnModel.FeasRestore
 import AcnModel.Gen.Consts
 open Lean Acn Acn.Wire Acn.Feas
 
@@ -37,11 +42,17 @@ def handleOne (j : Json) : Except String Json := do
   let cols ← getNat j "cols"
   let rows ← getFss j "M"
   let lims ← getFs j "lims"
-  let net : Net Float := {
+  let nres := (← getOpt j "restores" (·.getNat?)).getD 0
+  let net0 : Net Float := {
     stations, c := (← getFs j "c_net"), s := (← getFs j "s_net"), voltages := (← getFs j "voltages"),
     matrix := if hasM then some { cols, rows } else none, lims, cids,
     vt := (← getOpt j "net_vt" asF).getD (fOfBits Acn.Gen.netAbsTolBits),
     rt := (← getOpt j "net_rt" asF).getD (fOfBits Acn.Gen.netRelTolBits) }
+  let net := net0.restoreN nres
+  let stations := net.stations
+  let rows := net.mat.rows
+  let lims := net.lims
+  let cids := net.cids
   let netAlg : Net Float := { net with c := (← getFs j "c_alg"), s := (← getFs j "s_alg") }
   let vt? ← getOpt j "vt" asF
   let rt? ← getOpt j "rt" asF
